@@ -97,6 +97,8 @@ impl ClientManager {
             let client = client.read().await;
             if let Some(client_user_id) = client.user_id {
                 if client_user_id == user_id {
+                    // The connection stays open: it must no longer count as authenticated.
+                    client.session.clear_user_id();
                     clients_to_remove.push(client.session.client_id);
                 }
             }
